@@ -76,6 +76,24 @@ def main():
             ex = rng.choice(EXITS); errs = {1: rng.choice([b"Dcustom refusal", b"Zcustom later", b"D", b"xy"])} if ex == 82 else None
             out, rc, subs = S.run(c, sess, [ex], errs)
             jobs.append((c, sess, ex, errs, out, rc, subs))
+    # directed: one plain transaction for EVERY exit status 0..255 of the queue program (the property quantifies over every
+    # failure code; statuses above 127 go through the same wait-status decoding as the documented ones)
+    c0 = dict(rcpthosts=None, morercpthosts=[], badmailfrom=None, localiphost=None, databytes=0, relayclient=None, remotehost=b"client.example",
+              remoteip=b"192.0.2.7", remoteinfo=None, local=b"server.example", unterminated=False)
+    S.configure(c0)
+    for ex in range(256):
+        sess = b"HELO client.example\r\nMAIL FROM:<s@x.example>\r\nRCPT TO:<joe@ok.dom>\r\nDATA\r\n" + smtp_encode(b"Subject: t\n\nhello\n") + b"QUIT\r\n"
+        errs = {1: b"Dcustom refusal"} if ex == 82 else None
+        out, rc, subs = S.run(c0, sess, [ex], errs)
+        jobs.append((c0, sess, ex, errs, out, rc, subs)); ck.count("smtp_exit_status_sweep")
+    # directed: every byte value inside the peer-controlled strings of the Received field (HELO argument, TCPREMOTEHOST,
+    # TCPREMOTEINFO): only the safe characters may reach the queued message
+    for b in range(1, 256):
+        if b in (10, 13, 32): continue
+        cb = dict(c0, remotehost=b"h" + bytes([b]) + b"st.example", remoteinfo=b"id" + bytes([b]) + b"nt")
+        sess = b"HELO he" + bytes([b]) + b"lo\r\nMAIL FROM:<s@x.example>\r\nRCPT TO:<joe@ok.dom>\r\nDATA\r\n" + smtp_encode(b"Subject: t\n\nhello\n") + b"QUIT\r\n"
+        out, rc, subs = S.run(cb, sess, [0], None)
+        jobs.append((cb, sess, 0, None, out, rc, subs)); ck.count("received_byte_sweep")
     ml, _, _ = vlib.run_lines(drv8, ["sess %s %s %s" % (cfg_args(c), vlib.hx(d), "%d:%s" % (ex, vlib.hx((errs or {}).get(1, b"")))) for c, d, ex, errs, _, _, _ in jobs])
     for (c, sess, ex, errs, out, rc, subs), m in zip(jobs, ml):
         ck.evaluated(); ck.count("smtp_sessions")
@@ -116,6 +134,12 @@ def main():
             errs = {k + 1: rng.choice([b"Dcustom", b"Zcustom"]) for k, e in enumerate(exs) if e == 82}
             out, rc, subs = S.run(c, data, exs, errs, prog=exe_t)
             tjobs.append((c, data, exs, errs, out, rc, subs))
+    S.configure(c0)
+    for ex in range(256):
+        data = ns(b"\nSubject: t\n\nhello\n") + ns(b"s@x.example") + ns(ns(b"joe@ok.dom"))
+        errs = {1: b"Zcustom"} if ex == 82 else {}
+        out, rc, subs = S.run(c0, data, [ex], errs, prog=exe_t)
+        tjobs.append((c0, data, [ex], errs, out, rc, subs)); ck.count("qmtp_exit_status_sweep")
     ml, _, _ = vlib.run_lines(drv, ["qmtp %s %s %s" % (cfg_args(c), vlib.hx(d) if d else "-", ",".join("%d:%s" % (e, vlib.hx(errs.get(k + 1, b""))) for k, e in enumerate(exs))) for c, d, exs, errs, _, _, _ in tjobs])
     for (c, data, exs, errs, out, rc, subs), m in zip(tjobs, ml):
         ck.evaluated(); ck.count("qmtp_sessions")
@@ -183,6 +207,11 @@ def main():
         errs = {1: b"Dcustom"} if ex == 82 else None
         out, rc, subs = S.run(c, data, [ex], errs, prog=exe_q)
         qjobs.append((data, ex, errs, out, rc, subs))
+    for ex in range(256):
+        data = ns(ns(b"Subject: t\n\nhello\n") + ns(b"s@x.example") + ns(b"r1@y.example"))
+        errs = {1: b"Dcustom"} if ex == 82 else None
+        out, rc, subs = S.run(c, data, [ex], errs, prog=exe_q)
+        qjobs.append((data, ex, errs, out, rc, subs)); ck.count("qmqp_exit_status_sweep")
     lines = []
     for data, ex, errs, out, rc, subs in qjobs:
         items, rest = parse_netstrings(data)
